@@ -256,6 +256,24 @@ def build() -> Check:
                 if c.args:
                     ck.ob("R3.classifier-counters-bound-to-their-statuses", fn_construct(fi), False, "positional arguments: the binding cannot be read off the call", cell="positional")
     ck.floor("classifier_counter_bindings", n_bind, 4)
+    # the counters the decision reads are written by the two booking methods (events of the done-callback model, never looked into): complete_task adds one
+    # to the success counter, fail_task one to the failure counter, each under the counters' lock, and nothing else writes them after __init__
+    for mname_, field_ in (("complete_task", "success_count"), ("fail_task", "failure_count")):
+        fi_ = counters.methods.get(mname_)
+        if fi_ is None:
+            raise AnalysisError(f"ExecutionCounters.{mname_} not found")
+        augs = [n for n in ast.walk(fi_.node) if isinstance(n, (ast.AugAssign, ast.Assign))]
+        good = [n for n in augs if isinstance(n, ast.AugAssign) and isinstance(n.op, ast.Add) and isinstance(n.value, ast.Constant) and n.value.value == 1
+                and isinstance(n.target, ast.Attribute) and n.target.attr == field_]
+        locked = all(any(any(n is x for b in w.body for x in ast.walk(b)) for w in ast.walk(fi_.node) if isinstance(w, ast.With) and "_lock" in ast.unparse(w.items[0].context_expr)) for n in good)
+        ck.ob("R3.booking-method-writes-its-own-counter", fn_construct(fi_), len(augs) == 1 and len(good) == 1 and locked,
+              f"{mname_}() writes {[ast.unparse(n) for n in augs]}: expected exactly `self.{field_} += 1` under the lock - the stop decision and the delivered items disagree otherwise",
+              cell=mname_)
+    other_writers = sorted(f"{fi_.name} line {n.lineno}" for fi_ in counters.methods.values() if fi_.name not in ("__init__", "complete_task", "fail_task") and not isinstance(fi_.node, ast.Lambda)
+                           for n in ast.walk(fi_.node) if isinstance(n, (ast.AugAssign, ast.Assign))
+                           for t_ in ([n.target] if isinstance(n, ast.AugAssign) else n.targets) if isinstance(t_, ast.Attribute) and t_.attr in ("success_count", "failure_count"))
+    ck.ob("R3.booking-method-writes-its-own-counter", fn_construct(counters.methods["complete_task"]), not other_writers,
+          f"the counters are also written in {other_writers}", cell="other writers")
     # fail-fast guard: which fields must be None
     g_dec = None
     for st in ast.walk(sc.node):
@@ -680,6 +698,26 @@ def _publication_order(ck, prog):
                    "payload in that window gets InvalidStateError, which is recorded as the FAILURE of the whole map/parallel although no branch failed"
                    if late else f"the transition to {member} does not set {missing}"), cell=member)
     ck.floor("status_publishing_transitions", n_tr, 2)
+    # ... and the transition the done-callback calls for an outcome lands in the status whose getter hands that outcome out: complete() in the status the
+    # `result` property requires, fail() in the one `error` requires (the model records these calls as events and never looks inside them)
+    def required_by(prop):
+        fi_ = ews.methods.get(prop)
+        if fi_ is None:
+            raise AnalysisError(f"ExecutableWithState.{prop} not found")
+        return {n.comparators[0].attr for n in ast.walk(fi_.node) if isinstance(n, ast.Compare) and isinstance(n.left, ast.Attribute) and n.left.attr == "_status"
+                and isinstance(n.comparators[0], ast.Attribute)}
+
+    def lands_in(mname):
+        fi_ = ews.methods.get(mname)
+        if fi_ is None:
+            raise AnalysisError(f"ExecutableWithState.{mname} not found")
+        return {st.value.attr for st in ast.walk(fi_.node) if isinstance(st, ast.Assign) and any(isinstance(t, ast.Attribute) and t.attr == "_status" for t in st.targets)
+                and isinstance(st.value, ast.Attribute)}, fi_
+    for mname, prop in (("complete", "result"), ("fail", "error")):
+        got, fi_ = lands_in(mname)
+        ck.ob("R1.transition-lands-in-the-status-its-payload-is-read-from", fn_construct(fi_), got == required_by(prop) and len(got) == 1,
+              f"{mname}() lands in {sorted(got)}, the `{prop}` property hands the payload out in {sorted(required_by(prop))} only: the branch's outcome is reported as "
+              "something else (or reading it raises InvalidStateError, recorded as the failure of the whole map/parallel)", cell=mname)
 
 
 def _is_none(v):
